@@ -11,6 +11,8 @@ import collections
 import math
 import reprlib
 
+import functools
+
 import icontract
 
 THRESHOLD = 10
@@ -456,6 +458,25 @@ def f68(xs, s):
     return xs
 
 
+@icontract.require(lambda x: x > 0, enabled=True)
+def f70(x, **kwargs):
+    return x
+
+
+def at_most(x, limit):
+    return x <= len(limit)
+
+
+@icontract.require(functools.partial(at_most, limit=list(range(5000))), enabled=True)
+def f71(x):
+    return x
+
+
+@icontract.require(functools.partial(at_most, limit=[helper, P, math, abs]), enabled=True)
+def f72(x):
+    return x
+
+
 def _long_string():
     return "".join(chr(ord("a") + (i * 7) % 26) for i in range(300))
 
@@ -531,5 +552,8 @@ CASES = [
     {"id": "c65", "factory": "make_plain_variadic", "fn": "make_plain_variadic", "args": [-1, 5], "kwargs": {"k": 1}},
     {"id": "c66", "fn": "f66", "args": [], "kwargs": {"x": -1, "a": 1}, "names_kwargs": True},
     {"id": "c69", "fn": "f69", "args": [1, 2], "kwargs": {}, "names_args": True},
+    {"id": "c70", "fn": "f70", "args": [], "kwargs": dict([("x", -1)] + [("k%02d" % i, i) for i in range(40)])},
+    {"id": "c71", "fn": "f71", "args": [], "kwargs": {"x": 6000}, "cond_text": "at_most"},
+    {"id": "c72", "fn": "f72", "args": [], "kwargs": {"x": 9}, "cond_text": "at_most"},
     {"id": "c45", "fn": "f45", "args": [], "kwargs": {"x": 123456789012345678901234567890, "helper_fn": helper}, "a_repr": SMALL, "hidden": ["helper_fn"]},
 ]
